@@ -585,6 +585,17 @@ func (vc *FuncVC) trCall(e *env, n *ECall) Term {
 				}
 				return vc.implementsTerm(args[0], st, t)
 			}
+		case "bytesof": // bytesof(s): the byte string held by a []byte slice in the current state
+			a := args[0]
+			if a.Sort != "Slice" {
+				return e.fail("bytesof needs a slice")
+			}
+			h := vc.get(e.st(), "A:Int", "(Array Int (Array Int Int))")
+			vc.eng.needFun(vc, "bytes", []string{"(Array Int Int)", "Int", "Int"}, "Int")
+			return T("Int", fmt.Sprintf("(bytes (select %s (s!arr %s)) (s!off %s) (s!len %s))", h.S, a.S, a.S, a.S))
+		case "arrbytes": // arrbytes(a, n): the byte string held by the first n elements of an array value
+			vc.eng.needFun(vc, "bytes", []string{"(Array Int Int)", "Int", "Int"}, "Int")
+			return T("Int", fmt.Sprintf("(bytes %s 0 %s)", args[0].S, args[1].S))
 		case "fresh": // fresh(r): r was not allocated at function entry
 			al := vc.get(e.old, "alloc", "(Array Int Bool)")
 			return not(app("Bool", "select", al, args[0]))
